@@ -400,6 +400,12 @@ def prop_c04bec2(k, bs, cs, es, ephs, what, stride, offset):
         # reference = what the UNDAMAGED file reads as (a customer key placed over the session-key field makes even that
         # differ from the key the writer was given: write/read agreement is C07's subject, not damage detection)
         if f.session_key != base.session_key:
+            opened = [b for b in f.auth_blocks.values() if not isinstance(b, UnknownAuthBlock)]
+            if not base.bf3file.components and not f.bf3file.components and opened and all(isinstance(b, InitEccAuthBlock) for b in opened):
+                # nothing in a file without components is MACed under the session key, and an ECC block has no integrity
+                # check of its own (the customer-key / update containers have marker + CRC)
+                return (f"KNOWN:EMPTY-DIRECTORY-ECC the file has no components and only ECC auth blocks were opened: the damaged "
+                        f"block yields session key {f.session_key.hex()} instead of {base.session_key.hex()} and nothing can contradict it")
             return f"session key {f.session_key.hex()} instead of {base.session_key.hex()}"
         d = b3.same_file(f.bf3file, f.bf3file.comments if text_prefix else {}, base.bf3file.components)
         if d:
@@ -519,9 +525,19 @@ def prop_c02(k, bs, cs, es, ephs):
             how = key[1] % 3
             f0 = Bec2File(Bf3File({}, b3.parse_comps(cs) if how == 0 else iter(b3.parse_comps(cs))),
                           block_objs if how == 0 else (tuple(block_objs) if how == 1 else (b for b in block_objs)), key)
-            s = io.StringIO()
-            f0.write_file(s, wencs)
-            text = s.getvalue()
+            if key[2] % 2:
+                s = io.StringIO()
+                f0.write_file(s, wencs)
+                text = s.getvalue()
+            else:
+                # `bf3file: str | TextIO`: written to a path and read back as text
+                pth = b3.tmp_path()
+                try:
+                    f0.write_file(pth, wencs)
+                    with open(pth, newline="") as fh:
+                        text = fh.read().replace("\r\n", "\n")
+                finally:
+                    os.unlink(pth)
     except OverflowError:
         return "ok writer-rejects OverflowError"      # an entry beyond the 255-byte directory-entry limit
     except Exception as e:
@@ -538,7 +554,16 @@ def prop_c02(k, bs, cs, es, ephs):
             for order in ([sub, list(reversed(sub))] if len(sub) > 1 else [sub]):
                 n += 1
                 try:
-                    f = Bec2File.read_file(io.StringIO(text), order, True)
+                    if n % 3:
+                        f = Bec2File.read_file(io.StringIO(text), order, True)
+                    else:
+                        pth = b3.tmp_path()
+                        try:
+                            with open(pth, "w", newline="") as fh:
+                                fh.write(text)
+                            f = Bec2File.read_file(pth, order, True)
+                        finally:
+                            os.unlink(pth)
                 except Exception as e:
                     return f"FAIL decryptors {idx}: reader raises {type(e).__name__}: {e}"
                 if f.session_key != key:
@@ -734,10 +759,58 @@ def prop_c07splice(k1, k2, bs, es, ephs):
     try:
         f = Bec2File.read_file(io.StringIO(b3.to_text(hdr + body)), decs, True)
     except bec2.Bec2FileFormatError:
-        return "ok rejected"
+        pass
     except Exception as e:
-        return f"ok rejected-with {type(e).__name__}"
-    return f"FAIL header whose blocks wrap different keys accepted with key {f.session_key.hex()}"
+        pass
+    else:
+        return f"FAIL header whose blocks wrap different keys accepted with key {f.session_key.hex()}"
+    # degenerate keys: one block is a genuine container (right wrapping key, marker, CRC) around a payload that yields an
+    # empty, a short or an over-long "session key"; the other blocks wrap the real key.  Still different keys: rejected.
+    bl = bs.split(",")
+    el = [] if es == "-" else es.split(",")
+    for i, b in enumerate(bl):
+        if b.startswith("u"):
+            wk = sha256(unhx(b[1:].split(":")[0])).digest()[:16]
+        elif b == "c" and any(x[0] == "C" for x in el):
+            wk = unhx(next(x for x in el if x[0] == "C")[1:].split(":")[0])
+        else:
+            continue
+        t, v = ta[i]
+        if not v or len(v) % 16:
+            continue
+        fr = refaes.cbc_decrypt(wk, bytes(16), v)
+        if fr[0:1] != b"B" or fr[1] < 2:
+            continue
+        payload = fr[len(fr) - 2 - (fr[1] - 2):-2]
+        k1b = unhx(k1)
+        for what, alt in (("an empty", b""), ("a 15-byte", k1b[:15]), ("no", None)):
+            if b == "c":      # customer-key slot, then the key: the reader takes the last 16 bytes
+                pv = payload[:-16] + alt if alt is not None else b""
+                spec = next(x for x in el if x[0] == "C")[1:].split(":")
+                blanked = bytearray(pv)
+                if spec[1] != "-":
+                    p0 = parse_int(spec[2])
+                    blanked[p0:p0 + 10] = bytes(10)[:max(0, min(10, len(pv) - p0))] if 0 <= p0 <= len(pv) else b""
+                implied = bytes(blanked)[-16:]
+            else:             # the key, then the version byte: the reader takes the first 16 bytes
+                pv = alt + payload[16:] if alt is not None else b""
+                implied = pv[:16]
+            if implied == k1b:
+                continue
+            z = 16 - ((len(pv) + 4) % 16)
+            fr2 = b"B" + bytes([len(pv) + 2]) + bytes(z) + pv + bitserial(pv).to_bytes(2, "big")
+            t2 = list(ta)
+            t2[i] = (t, refaes.cbc_encrypt(wk, bytes(16), fr2))
+            hdr2 = BEC2_FILE_SIG + b"".join(bytes([x, len(y)]) + y for x, y in t2) + b"\x00\x00"
+            body2 = Bf3File().to_binary(len(hdr2), k1b)
+            try:
+                with Oracle((), FRESH_KEY):
+                    f = Bec2File.read_file(io.StringIO(b3.to_text(hdr2 + body2)), decs, True)
+            except Exception:
+                continue
+            return (f"FAIL block {i} re-wrapped around {what} session key next to blocks that wrap {k1}: accepted with key "
+                    f"{f.session_key.hex()}")
+    return "ok rejected"
 
 
 @op("prop.c07unknown")
